@@ -190,6 +190,11 @@ func (e *Engine) VerifyFunc(key string) (*Gen, core.FuncInfo) {
 				}
 				st := &state{cur: r.cond, heap: r.st.heap}
 				g.addObl(fr, st, "post", fmt.Sprintf("%s/ret%d", en.Label, ri+1), "postcondition "+en.Label+" at return "+fmt.Sprint(ri+1), r.pos, t)
+				var rs []string
+				for _, v := range r.vals {
+					rs = append(rs, v.S)
+				}
+				g.obls[len(g.obls)-1].rets = rs
 			}
 		}
 	}
